@@ -673,6 +673,14 @@ func residualC10(c *Ctx, ce *ssa.Function) {
 				c.Check(got.sym == "R", "C10.residual", key, okRets[0].Pos(), "must return the right residual unchanged, returns "+got.String())
 			default:
 				// reduce(&BinaryExpr{Op, LHS: L, RHS: R}, nil)
+				if ph, isPhi := res.(*ssa.Phi); isPhi {
+					// one return fed by an if/else chain: follow the edge taken in this scenario
+					for i, pb := range ph.Block().Preds {
+						if r.execE[[2]int{pb.Index, ph.Block().Index}] {
+							res = ph.Edges[i]
+						}
+					}
+				}
 				call, isCall := res.(*ssa.Call)
 				desc := map[string]string{}
 				if isCall && len(call.Call.Args) > 0 {
@@ -698,6 +706,10 @@ func residualC10(c *Ctx, ce *ssa.Function) {
 					}
 				}
 				ok := desc["LHS"] == "L" && desc["RHS"] == "R" && desc["Op"] == "AND"
+				if len(desc) == 0 {
+					c.Unk("C10.residual", key, okRets[0].Pos(), "the value returned for two residuals is not a call on a freshly built BinaryExpr that this rule can read")
+					continue
+				}
 				c.Check(ok, "C10.residual", key, okRets[0].Pos(), fmt.Sprintf("must build BinaryExpr{Op: cond.Op, LHS: left, RHS: right}; builds %v", desc))
 			}
 		}
